@@ -581,6 +581,8 @@ class State:
 
     def signs(self, d: Lin) -> frozenset:
         """The set of signs (-1, 0, 1) the linear form can take under this state (exact, Fourier-Motzkin)."""
+        if any(("\u00b7" in k or k in OPAQUE) for k in d.coef):
+            return self._nonlinear_signs(d)
         s = self._pair_sign(d)
         if s is not None:
             return frozenset([s])
@@ -601,6 +603,41 @@ class State:
         res = frozenset(out)
         self._memo_signs[key] = res
         return res
+
+    def linear(self, d: Lin):
+        """-> (linear form, +1/-1) with sign(d) = sign(form) * factor.  A form with reciprocals of expressions of known
+        sign is multiplied through by them (exact algebra: a monomial holding 1/t loses that factor, every other
+        monomial gains t).  Anything still non-linear after that is not compared at all: treating a product or a root
+        as a free variable could put a spurious case on the table."""
+        flip = 1
+        for _ in range(8):
+            invs = sorted({f for k in d.coef for f in Lin.factors(k) if f in OPAQUE and OPAQUE[f][0] == "inv"})
+            if not invs:
+                break
+            f = invs[0]
+            arg = OPAQUE[f][1][0]
+            sg = self.signs(arg)
+            if sg == frozenset([0]):
+                raise Undecided("comparison involving 1/0")
+            if len(sg) != 1:
+                raise NeedSplit(self.linear(arg)[0], "sign of the divisor %r" % (arg,))
+            flip *= next(iter(sg))
+            out = Lin.num(d.const).times(arg)
+            for k, c in d.coef.items():
+                fs = Lin.factors(k)
+                if f in fs:
+                    fs.remove(f)
+                    out = out + (Lin.monomial(c, fs) if fs else Lin.num(c))
+                else:
+                    out = out + Lin({k: c}).times(arg)
+            d = out
+        if any(("\u00b7" in k or k in OPAQUE) for k in d.coef):
+            raise Undecided("comparison of the non-linear expression %r" % (d,))
+        return d, flip
+
+    def _nonlinear_signs(self, d: Lin) -> frozenset:
+        d, flip = self.linear(d)
+        return frozenset(x * flip for x in self.signs(d))
 
     def sign(self, d: Lin) -> Optional[int]:
         """sign of a linear form under this state, or None if not decided."""
@@ -839,7 +876,7 @@ class Interp:
         d = a if b is None else (a - b)
         s = self.state.sign(d)
         if s is None:
-            raise NeedSplit(d, "comparison of %r with 0 is not decided by the declared atoms%s" % (d, (" at " + norm(node)[:60]) if node is not None else ""))
+            raise NeedSplit(self.state.linear(d)[0], "comparison of %r with 0 is not decided by the declared atoms%s" % (d, (" at " + norm(node)[:60]) if node is not None else ""))
         return s
 
     def num(self, v, node=None) -> Lin:
@@ -871,7 +908,7 @@ class Interp:
             ss = self.state.signs(self.num(a) - self.num(b))
             truths = {{ast.Lt: s < 0, ast.LtE: s <= 0, ast.Gt: s > 0, ast.GtE: s >= 0}[type(op)] for s in ss}
             if len(truths) != 1:
-                raise NeedSplit(self.num(a) - self.num(b), "comparison %s of %r and %r is not decided by the abstract state%s" % (type(op).__name__, a, b, (" at " + norm(node)[:60]) if node is not None else ""))
+                raise NeedSplit(self.state.linear(self.num(a) - self.num(b))[0], "comparison %s of %r and %r is not decided by the abstract state%s" % (type(op).__name__, a, b, (" at " + norm(node)[:60]) if node is not None else ""))
             res = truths.pop()
             # path fact for the float-order prover: the program itself evaluated this comparison (on floats) and went this way
             ta, tb = getattr(a, "tree", None), getattr(b, "tree", None)
@@ -919,7 +956,7 @@ class Interp:
                 return True
             if 0 not in ss:
                 return False
-            raise NeedSplit(self.num(a) - self.num(b), "equality of %r and %r is not decided by the abstract state" % (a, b))
+            raise NeedSplit(self.state.linear(self.num(a) - self.num(b))[0], "equality of %r and %r is not decided by the abstract state" % (a, b))
         if isinstance(a, str) and isinstance(b, str):
             return a == b
         if isinstance(a, Str) or isinstance(b, Str):
@@ -1529,6 +1566,8 @@ class Interp:
         return self.getattr(base, e.attr, e, env)
 
     def getattr(self, base, attr, node=None, env=None):
+        if base is None and not attr.startswith("__"):
+            raise PyRaise("AttributeError", node)  # None.anything
         if isinstance(base, ObjVal):
             if attr in base.attrs:
                 return base.attrs[attr]
@@ -1885,6 +1924,8 @@ class Interp:
             if a.const >= 0:
                 import math as _m
                 return Lin.num(Fraction(_m.sqrt(float(a.const)))).as_float()
+        if isinstance(op, ast.Pow) and isinstance(a, Lin) and isinstance(b, Lin) and not a.is_const() and b.is_const() and b.const in (0, 1):
+            return a if b.const == 1 else Lin.num(1)
         if isinstance(op, ast.Pow) and isinstance(a, Lin) and isinstance(b, Lin) and not a.is_const() and b.is_const() and b.const in (2, 3, 4):
             r = a
             for _ in range(int(b.const) - 1):
